@@ -6,6 +6,10 @@ use verif_harness::util::*;
 fn main() {
     scrub_env();
     let args: Vec<String> = std::env::args().skip(1).collect();
+    if args.iter().any(|a| a == "--under-cargo") {
+        // as under cargo (build script, `cargo run`): CARGO names an executable next to which there is no rustfmt
+        std::env::set_var("CARGO", "/nonexistent-cargo-home/bin/cargo");
+    }
     let ts = args.iter().any(|a| a == "--ts");
     if args.iter().any(|a| a == "--compile-stdout") {
         use rasn_compiler::prelude::*;
